@@ -10,19 +10,20 @@ import (
 // TaskCfg describes one generated task. Every command is `echo <token>` so that it is observed at
 // the runner's stdout seam; FailAt>=0 makes that command `echo <token>; exit 1`.
 type TaskCfg struct {
-	Name     string            `json:"name"`
-	Before   []string          `json:"before,omitempty"`
-	Cmds     []string          `json:"cmds,omitempty"`
-	After    []string          `json:"after,omitempty"`
-	Cond     string            `json:"cond,omitempty"` // "", "true", "false"
-	Ctx      string            `json:"ctx,omitempty"`
-	FailAt   int               `json:"fail_at"` // -1: none
-	Allow    bool              `json:"allow,omitempty"`
-	Deps     []string          `json:"deps,omitempty"` // pipeline mode: stage dependencies (stage name == task name)
-	Export   string            `json:"export,omitempty"`
-	Reads    string            `json:"reads,omitempty"`     // name of an environment variable the last command echoes
-	StageEnv map[string]string `json:"stage_env,omitempty"` // pipeline mode: env override given on the stage
-	SameAs   string            `json:"same_as,omitempty"`   // this entry runs the very task object of the named entry once more
+	Name       string            `json:"name"`
+	Before     []string          `json:"before,omitempty"`
+	Cmds       []string          `json:"cmds,omitempty"`
+	After      []string          `json:"after,omitempty"`
+	Cond       string            `json:"cond,omitempty"` // "", "true", "false"
+	Ctx        string            `json:"ctx,omitempty"`
+	FailAt     int               `json:"fail_at"` // -1: none
+	Allow      bool              `json:"allow,omitempty"`
+	Deps       []string          `json:"deps,omitempty"` // pipeline mode: stage dependencies (stage name == task name)
+	Export     string            `json:"export,omitempty"`
+	Reads      string            `json:"reads,omitempty"`       // name of an environment variable the last command echoes
+	StageEnv   map[string]string `json:"stage_env,omitempty"`   // pipeline mode: env override given on the stage
+	BeforeFail bool              `json:"before_fail,omitempty"` // the task's own before hook exits non-zero
+	SameAs     string            `json:"same_as,omitempty"`     // this entry runs the very task object of the named entry once more
 }
 
 // CtxCfg describes one execution context.
@@ -71,6 +72,9 @@ func (s Scenario) String() string {
 		}
 		if len(t.Deps) > 0 {
 			p += "<-" + strings.Join(t.Deps, ",")
+		}
+		if t.BeforeFail {
+			p += "[before fails]"
 		}
 		if t.SameAs != "" {
 			p += "[same object as " + t.SameAs + "]"
